@@ -25,7 +25,8 @@ import (
 //
 // Oracles are computed with math/big from the mathematical definition, never from the tables in comb.go:
 //   - a returned binomial is exact; a panic is only allowed when min(k,n-k)*C(n,k) does not fit the result type;
-//   - Coeffs(n): every entry whose true value fits an int is exact, rows have the documented shape;
+//   - Coeffs(n), n >= 0: n+1 rows of the documented shape with every entry exact, or a panic, and a panic only
+//     when some entry does not fit an int (n >= 67);
 //   - Rank(c) for strictly increasing c >= 0: exact sum of C(c_i, i+1) or panic, and a panic only when a term or a
 //     partial sum does not fit; Unrank(Rank(c), len c) = c;
 //   - Unrank(r, k) for r >= 0, k >= 1 terminates (the framework's timeout turns into an oracle failure), is strictly
@@ -288,32 +289,37 @@ func c16RunCoeffs(args []string) Result {
 		if n >= 2 {
 			tags = append(tags, "nontrivial")
 		}
+		// exact or panic; a panic is only allowed when some entry C(i,j), i <= n, j <= i/2, does not fit an int
+		// (on 64 bit: n >= 67, C(67,33) > MaxInt >= C(66,33)); rows are checked up to row 200 at most
 		if out == "panic" {
-			oracle = fmt.Sprintf("Coeffs(%d) panicked", n)
+			tags = append(tags, "coeffs-panic")
+			fits := true
+			for i := 0; i <= n && i <= 200 && fits; i++ {
+				if b, _ := c16Binom(c16I(i), c16I(i/2)); b.Cmp(c16MaxInt) > 0 {
+					fits = false
+				}
+			}
+			if fits && n <= 200 {
+				oracle = fmt.Sprintf("Coeffs(%d) panicked although every entry fits an int", n)
+			}
 		} else if len(rows) != n+1 {
 			oracle = fmt.Sprintf("Coeffs(%d) has %d rows", n, len(rows))
 		} else {
-			wrapped := false
 			for i, r := range rows {
 				if len(r) != i/2+1 {
 					oracle = fmt.Sprintf("Coeffs(%d): row %d has %d entries, want %d", n, i, len(r), i/2+1)
 					break
 				}
 				for j, v := range r {
-					exact, _ := c16Binom(c16I(i), c16I(j))
-					if exact.Cmp(c16MaxInt) > 0 {
-						wrapped = true
-						continue // not representable: the property cannot ask for it
-					}
-					if exact.Cmp(c16I(v)) != 0 && oracle == "" {
+					exact, huge := c16Binom(c16I(i), c16I(j))
+					if (huge || exact.Cmp(c16I(v)) != 0) && oracle == "" {
 						oracle = fmt.Sprintf("Coeffs(%d)[%d][%d] = %d but C(%d,%d) = %v", n, i, j, v, i, j, exact)
 					}
 				}
 			}
-			if wrapped {
-				tags = append(tags, "coeffs-beyond-int")
-			}
 		}
+	} else {
+		tags = append(tags, "coeffs-negative-arg")
 	}
 	return Result{Out: out, Oracle: oracle, Tags: tags}
 }
@@ -606,7 +612,7 @@ func c16GenCoeff(r *rand.Rand, tier string, emit func(string)) {
 }
 
 func c16GenCoeffs(r *rand.Rand, tier string, emit func(string)) {
-	for _, n := range []int{0, 1, 2, 3, 4, 5, 8, 33, 34, 40, 65, 66, 67, 68, 70, 90, -1, -2, -5} {
+	for _, n := range []int{0, 1, 2, 3, 4, 5, 8, 33, 34, 40, 64, 65, 66, 67, 68, 69, 70, 80, 90, 200, -1, -2, -5} {
 		emit(fmt.Sprintf("coeffs %d", n))
 	}
 	cases := 30
@@ -614,7 +620,7 @@ func c16GenCoeffs(r *rand.Rand, tier string, emit func(string)) {
 		cases = 300
 	}
 	for c := 0; c < cases; c++ {
-		emit(fmt.Sprintf("coeffs %d", r.Intn(120)))
+		emit(fmt.Sprintf("coeffs %d", r.Intn(85)))
 	}
 }
 
